@@ -113,8 +113,12 @@ def c15(ctx):
     ctx.extra["book_nodes_visited"] = hist
     bad2, ev2, h2 = run_game_traces(ctx, "offbook", 4 if quick else 12, 6 if quick else 20, 5 if quick else 10)
     absorb_game(ctx, bad2, {"EngineMove"})
-    ctx.evaluations += ev + ev2
-    ctx.nontrivial += hist + h2
+    # supplied boards whose history coincides with a book prefix while book replies are unplayable
+    bad3, ev3, h3 = run_game_traces(ctx, "oddsbook", 2 if quick else 6, 0, 0, extra=["--reps", 4 if quick else 8, "--max-nodes", 60 if quick else 300])
+    absorb_game(ctx, bad3, {"EngineMove"})
+    ctx.extra["odds_game_book_nodes"] = h3
+    ctx.evaluations += ev + ev2 + ev3
+    ctx.nontrivial += hist + h2 + h3
     if hist < 50:
         raise ToolError("vacuity guard: only %d opening-book nodes were visited" % hist)
     ctx.rule = ("B2: every node of the COMPILED opening-book trie (enumerated through Book::get_next_moves, so the build script's output for the current opening_lines.txt) is reached by playing its prefix "
